@@ -1,0 +1,64 @@
+//go:build verif
+
+// Contracts for the deductive checker in /verif (comment-only).
+
+package nsqd
+
+// ---------------------------------------------------------------- diskqueue.go (C09)
+// Necessary conditions of "exact persistent FIFO", one per function. The composition over file
+// contents (what a reader finds at a position is what the writer put there) is decided by the
+// bounded stand-in attached to writeOne, on the real queue in a temporary directory.
+//
+// stepF/stepP: the position after a record of sz payload bytes written or read at (f, p) with
+// segment limit max: reader and writer must roll over at the same boundary.
+//@ spec stepF(f int, p int, sz int, max int) int := p + 4 + sz > max ? f + 1 : f
+//@ spec stepP(f int, p int, sz int, max int) int := p + 4 + sz > max ? 0 : p + 4 + sz
+//@
+//@ func (d *DiskQueue) writeOne(data []byte) error
+//@   property C09
+//@   nosafety "os.File handles returned by the assumed os contracts; only the position arithmetic and framing are specified"
+//@   requires d.writeFile != nil ==> d.writeFile.offset == d.writePos
+//@   requires d.writePos >= 0 && d.maxBytesPerFile >= 0 && len(data) < 2147483648
+//@   let f0 := d.writeFileNum
+//@   let p0 := d.writePos
+//@   let n  := len(data)
+//@   modifies *
+//@   ensures[walk]     result == nil ==> d.writeFileNum == stepF(f0, p0, n, d.maxBytesPerFile) && d.writePos == stepP(f0, p0, n, d.maxBytesPerFile)
+//@   ensures[depth]    result == nil ==> d.depth == old(d.depth) + 1
+//@   ensures[limit_kept] d.maxBytesPerFile == old(d.maxBytesPerFile) && d.readFileNum == old(d.readFileNum) && d.readPos == old(d.readPos)
+//@   ensures[framing]  result == nil && old(d.writeFile) != nil ==>
+//@        old(d.writeFile).wlog == old(old(d.writeFile).wlog) ++ eP(eI(p0), eP(eS(be32(n) ++ old(data[..])), eNil))
+//@   ensures[fail_keeps_position] result != nil && d.writeFileNum == f0 ==> d.writePos == p0 && d.depth == old(d.depth)
+//@   bounded TestBounded_diskQueueFIFO "every history of 4 (thorough: every 4th history of 6) operations over {put 0/1/5/40 bytes, get, close+reopen} x (maxBytesPerFile, syncEvery) in {(1,1),(9,1),(20,3),(100,1),(100,3),(9,3)}: delivered messages equal the enqueued ones in order, each once, and Depth() at rest equals enqueued-not-delivered"
+//@
+//@ func (d *DiskQueue) readOne() ([]byte, error)
+//@   property C09
+//@   nosafety "a negative record length read from a corrupted segment makes make() panic; file contents are outside this contract (clean restarts only)"
+//@   requires d.readPos >= 0
+//@   modifies *
+//@   ensures[walk]   result1 == nil ==> d.nextReadFileNum == stepF(old(d.readFileNum), old(d.readPos), len(result0), d.maxBytesPerFile)
+//@        && d.nextReadPos == stepP(old(d.readFileNum), old(d.readPos), len(result0), d.maxBytesPerFile)
+//@   ensures[no_ack] d.readFileNum == old(d.readFileNum) && d.readPos == old(d.readPos) && d.depth == old(d.depth)
+//@        && d.writeFileNum == old(d.writeFileNum) && d.writePos == old(d.writePos) && d.maxBytesPerFile == old(d.maxBytesPerFile)
+//@
+//@ func (d *DiskQueue) moveForward()
+//@   property C09
+//@   nosafety "only position arithmetic is specified"
+//@   modifies *
+//@   ensures[ack] (d.readFileNum == old(d.nextReadFileNum) && d.readPos == old(d.nextReadPos)) || (d.readFileNum == d.writeFileNum && d.readPos == 0 && d.writePos == 0)
+//@   ensures[removes_only_left_segment] old(d.readFileNum) == old(d.nextReadFileNum) && (old(d.nextReadFileNum) < old(d.writeFileNum) || old(d.nextReadPos) < old(d.writePos))
+//@        ==> glog("fs.removed") == old(glog("fs.removed"))
+//@
+//@ // sync / metadata: the five numbers are written and read back in the same order and format
+//@ func (d *DiskQueue) sync() error
+//@   property C09
+//@   trusted
+//@   modifies d.needSync, d.writeFile
+//@   ensures[meta_roundtrip; C09; bounded] true
+//@
+//@ func (d *DiskQueue) skipToNextRWFile() error
+//@   property C09
+//@   nosafety "only position arithmetic is specified"
+//@   modifies *
+//@   ensures[reset] d.writeFileNum == old(d.writeFileNum) + 1 && d.writePos == 0 && d.readFileNum == d.writeFileNum && d.readPos == 0
+//@        && d.nextReadFileNum == d.writeFileNum && d.nextReadPos == 0 && d.depth == 0 && d.maxBytesPerFile == old(d.maxBytesPerFile)
